@@ -155,6 +155,10 @@ func WithCancel(parent context.Context) (context.Context, context.CancelFunc) {
 
 //verif:model context.WithDeadline
 func WithDeadline(parent context.Context, d time.Time) (context.Context, context.CancelFunc) {
+	if cur, ok := parent.Deadline(); ok && cur.Before(d) {
+		// the parent's deadline is sooner: it stays the effective one (as in package context)
+		return WithCancel(parent)
+	}
 	c := newCancel(asCtx(parent))
 	c.hasDeadline = true
 	c.deadline = d
